@@ -92,6 +92,15 @@ func genC20(r *Rng, tier string, idx int) *Plan {
 		p.Ops = append(p.Ops, Op{ID: nid(), Kind: "layout", S: "symlinks"})
 	}
 	p.Ops = append(p.Ops, Op{ID: nid(), Kind: "cafile", S: r.Pick([]string{"ca0", "ca0", "ca1", "both"})})
+	if f.CAFile != "" && interval > 0 && interval <= 60 && r.Chance(0.3) {
+		// the watched file is unreadable for several polls in a row (secret volume re-mounted), comes back, and is
+		// rotated afterwards: the rotation must be followed at the configured interval, as before the outage
+		k := r.Range(4, 8)
+		p.Ops = append(p.Ops, Op{ID: nid(), Kind: "probe"}, Op{ID: nid(), Kind: "cafile", S: "delete"}, Op{ID: nid(), Kind: "adv", D: k*interval + 1},
+			Op{ID: nid(), Kind: "cafile", S: "ca0"}, Op{ID: nid(), Kind: "adv", D: interval + 1}, Op{ID: nid(), Kind: "probe"},
+			Op{ID: nid(), Kind: "cafile", S: r.Pick([]string{"ca1", "both", "ca1"})}, Op{ID: nid(), Kind: "adv", D: interval + 1}, Op{ID: nid(), Kind: "probe"},
+			Op{ID: nid(), Kind: "servercert", D: 1}, Op{ID: nid(), Kind: "probe"}, Op{ID: nid(), Kind: "servercert", D: 0}, Op{ID: nid(), Kind: "probe"})
+	}
 	n := r.Range(4, 18)
 	for i := 0; i < n; i++ {
 		switch r.Intn(10) {
